@@ -864,6 +864,14 @@ pub fn partition_suites(thorough: bool) -> Vec<Suite> {
         v.push(crash_suite(&format!("part-edge-v{format}"), disk(format, true, false), edge_tables(), edge_ops(), d(5, 7)));
     }
     v.push(crash_suite("part-ttl-v3", disk(3, false, true), std_tables(), tier_focus_ops(true), d(5, 6)));
+    // three keys on a 4-block device: a batch in which two records have their blocks already when a
+    // third finds no room (the roll-back hands several allocations back at once), then the retry
+    {
+        let mut t = std_tables();
+        t.keys = vec![b"a".to_vec(), b"b".to_vec(), b"c".to_vec()];
+        let ops = vec![ins(0, V_X), ins(1, V_X), ins(2, V_BIG3), ins(2, V_X), Op::Delete { k: 2, ts: 0 }, Op::Delete { k: 0, ts: 0 }, Op::Flush];
+        v.push(crash_suite("part-three4-v3", small_disk(3, 4), t, ops, d(7, 8)));
+    }
     // extents of hundreds of blocks: retired spans longer than one marker write, holes
     // reused by slightly smaller extents, restarts in between
     {
